@@ -38,6 +38,18 @@ SCRIPTS = {
     "burst": [("keys", b"a" + F5 + b"b"), ("keys", F8)],
     "mouse-alarm": [("keys", PRESS + RELEASE), ("keys", F5), ("keys", b"b"), ("keys", F8)],  # the unhandled f5 sets an alarm
     "resize-pipe": [("resize",), ("pipe", b"x"), ("keys", F5), ("watch",), ("keys", F8)],
+    # an escape sequence split over two reads, then a pause longer than the escape time-out; the application swaps the top widget mid-session
+    "split-esc": [("keys", b"\x1b"), ("keys", b"[A"), ("sleep", 0.25), ("keys", b"b"), ("keys", F8)],
+    "swap": [("keys", b"a"), ("swap",), ("keys", b"k"), ("keys", F5), ("keys", F8)],
+}
+# what the script sends, as the keys urwid names
+EXPECT = {
+    "keys": ["a", "f5", "f8"],
+    "burst": ["a", "f5", "b", "f8"],
+    "mouse-alarm": ["(mouse press", "(mouse release", "f5", "b", "f8"],
+    "resize-pipe": ["window resize", "f5", "f8"],
+    "split-esc": ["up", "b", "f8"],
+    "swap": ["a", "k", "f5", "f8"],
 }
 
 
@@ -49,14 +61,18 @@ KINDS = {"exit": urwid.ExitMainLoop, "boom": Boom, "sysexit": SystemExit}  # Sys
 
 
 class Out:
+    """a fully buffered output file: only what has been flushed has reached the terminal"""
+
     def __init__(self):
         self.buf = []
+        self.pending = []
 
     def write(self, s):
-        self.buf.append(s)
+        self.pending.append(s)
 
     def flush(self):
-        pass
+        self.buf.extend(self.pending)
+        del self.pending[:]
 
 
 def make_loop(name):
@@ -142,19 +158,26 @@ def session(cfg, inject_at=None, kind=None):
     scr0.draw_screen = draw
 
     class ProbeEdit(urwid.Edit):
+        tag = 1
+
         def keypress(self, size, key):
+            calls.append(("widget", self.tag))
             site("keypress:" + key)
             return super().keypress(size, key)
 
         def mouse_event(self, size, event, button, col, row, focus):
+            calls.append(("widget", self.tag))
             site("mouse:" + event)
             return super().mouse_event(size, event, button, col, row, focus)
 
         def render(self, size, focus=False):
+            calls.append(("widget", self.tag))
             site("render")
             return super().render(size, focus)
 
     w = urwid.Filler(ProbeEdit("x:"), "top")
+    w2 = urwid.Filler(ProbeEdit("y:"), "top")
+    w2.original_widget.tag = 2
 
     def filt(keys, raw_):
         site("filter")
@@ -213,6 +236,16 @@ def session(cfg, inject_at=None, kind=None):
                 os.write(pw, b"w")
             else:
                 do_step()
+        elif st[0] == "sleep":
+            if hook:
+                ml.set_alarm_in(st[1], lambda loop, data: None)  # the next step follows when the loop goes idle after this alarm
+            else:
+                time.sleep(st[1])
+        elif st[0] == "swap":
+            calls.append("swap")
+            ml.widget = w2
+            if hook:
+                ml.set_alarm_in(0.0, lambda loop, data: None)
 
     if hook:
         # the next step is injected when the loop goes idle (the driver itself never raises)
@@ -357,7 +390,7 @@ def judge_clean(ctx, cfg, r):
                     continue
                 else:
                     exp.append("keypress:" + k)
-                    if k in ("f5", "f8"):
+                    if k in ("f5", "f8", "up"):  # keys a one-line Edit in a Filler does not handle
                         exp.append("unhandled:" + k)
             got = []
             while j < n and calls[j] != "filter":
@@ -373,6 +406,21 @@ def judge_clean(ctx, cfg, r):
             i = j
         else:
             i += 1
+    # ---- exactness: what was sent is what the filter saw, in that order, nothing else
+    seen = [k for c in calls if isinstance(c, tuple) and c[0] == "keys" for k in c[1]]
+    want = EXPECT[script_name]
+    norm = [k.replace("'", "")[: len("(mouse release")] if k.startswith("(") else k for k in seen]
+    norm = [("(mouse press" if k.startswith("(mouse press") else k) for k in norm]
+    if norm[: len(want)] != want or (len(norm) > len(want)):
+        V("input-exact", f"the script sends {want}; the input filter saw {seen}")
+    # ---- the topmost widget gets the events and is the one drawn: after the application replaced loop.widget, only the new one
+    if "swap" in calls:
+        after = calls[calls.index("swap"):]
+        old_used = [after[i + 1] for i, c in enumerate(after[:-1]) if c == ("widget", 1) and isinstance(after[i + 1], str)]
+        if old_used:
+            V("topmost-widget", f"after loop.widget was replaced the old widget still got {old_used}", "popups" if popups else "plain")
+        elif not any(c == ("widget", 2) for c in after):
+            V("topmost-widget", "after loop.widget was replaced the new widget was never rendered or offered a key", "popups" if popups else "plain")
     # ---- redraw before the loop next waits: a draw between two consecutive input batches
     idx = [k for k, c in enumerate(calls) if c == "filter"]
     for a, b in zip(idx, idx[1:]):
@@ -447,6 +495,8 @@ def configs(tier):
         for script in SCRIPTS:
             if tier == "quick" and loopname not in ("select", "asyncio") and script not in ("burst", "resize-pipe"):
                 continue
+            if tier == "quick" and script in ("split-esc", "swap") and loopname != "select":
+                continue
             for popups in (False, True):
                 for paste in (False, True):
                     if tier == "quick" and popups != paste:
@@ -454,6 +504,8 @@ def configs(tier):
                     out.append((script, loopname, True, popups, paste, "default"))
             out.append((script, loopname, True, False, True, "custom"))
     out.append(("keys", "select", False, False, False, "default"))
+    out.append(("split-esc", "select", False, False, False, "default"))
+    out.append(("swap", "select", False, True, False, "default"))
     out.append(("burst", "select", False, True, True, "default"))
     out.append(("mouse-alarm", "select", False, False, True, "custom"))
     return out
@@ -472,7 +524,8 @@ def run(tier, R):
         "traces_validated_against_impl": ev,
         "evaluations": ev,
         "distinct_nontrivial": nt,
-        "rule": f"{len(cfgs)} configurations (4 scripts: keys / a burst of three keys in one read / mouse press+release, alarm / resize, pipe write, watched descriptor; x "
+        "rule": f"{len(cfgs)} configurations (6 scripts: keys / a burst of three keys in one read / mouse press+release, alarm / resize, pipe write, watched descriptor / an escape "
+        "sequence split over two reads followed by a pause longer than the escape time-out / the application replacing loop.widget mid-session; x "
         "select, asyncio, tornado, twisted, trio, zmq; raw Screen with hook_event_loop and a wrapper without it; pop_ups; bracketed paste + focus reporting; default and custom "
         "SIGWINCH/SIGTSTP/SIGCONT handlers); per configuration one clean session, then one session per callback-site invocation index (input filter, keypress, mouse_event, "
         "unhandled_input, alarm, watch, pipe, render in the idle redraw) x {ExitMainLoop, an Exception subclass, SystemExit}; every session in its own forked process over "
@@ -485,7 +538,7 @@ def run(tier, R):
         "assumptions": [
             "sessions run against real loops and a real pty: the next script step is injected from an idle callback (chained alarms for the screen without event-loop support); a 4 s watchdog ends hung sessions",
             "signals are delivered synchronously (the resize step calls the SIGWINCH handler directly)",
-            "terminal modes are read off the captured output with mc/refs/vt_ref.py",
+            "terminal modes are read off the captured output with mc/refs/vt_ref.py; the output file is fully buffered: only flushed bytes count as having reached the terminal",
         ],
     }
 
